@@ -2948,3 +2948,30 @@ def m_polllimit( ctx ):
         else:
             res.ok( src, c, 'merge( ..., limit=%r ) only ever sees addresses whose bank reads that many at once' % lim )
     return res
+
+
+@rule( 'M-FORGET', props=( 'C19', ), floor=1 )
+def m_forget( ctx ):
+    """plc.poller._forget clears the value of a register that IS polled and leaves the set of polled registers as it was: forgetting an address
+    nobody requested must not request it ( the Modbus poller would poll it, and - reach 100 - stretch a merged range over everything between
+    it and its neighbours ).  By value, on a store with and without the address."""
+    res = Result( 'M-FORGET' )
+    src = ctx.src( 'remote/plc.py' )
+    fn = src.get( 'poller._forget' )
+    A = fn.args.args[1].arg
+    wrong = []
+    for store, want in (( {}, {} ), ( { 40001: 7 }, { 40001: 7 } ), ( { 40001: 7, 40090: 3 }, { 40001: 7, 40090: None } )):
+        env = { 'self._data': dict( store ), A: 40090, 'self.description': 'd', 'self.online': True }
+        try:
+            run_block( fn.body, env, ignore_calls=( 'log', ))
+        except NoFold as exc:
+            raise AnalysisError( 'poller._forget: not a decision fragment: %s' % exc )
+        res.cells += 1
+        if env['self._data'] != want:
+            wrong.append(( store, env['self._data'], want ))
+    if wrong:
+        res.bad( src, fn, 'poller._forget( 40090 ) on the store %r leaves %r, specified %r' % wrong[0],
+                 'an address that was never requested becomes a polled register: the Modbus poller reads it and, with the default reach, a merged range from its nearest neighbour up to it - registers beyond the reach of every requested one' )
+    else:
+        res.ok( src, fn, '_forget clears a polled register and never adds one ( %d cells )' % res.cells )
+    return res
